@@ -27,56 +27,24 @@ Proof.
      destruct (parse_int a); [|discriminate]; destruct (parse_int b); [|discriminate]; reflexivity).
 Qed.
 
-(* an expression all of whose variables are bound, on well-typed operands, does not raise an error *)
-Lemma expr_definite : forall e m, (forall x, In x (expr_vars e) -> lookup m x <> None) ->
-  int_row (ord_vars_e e) m -> ord_consts_e e = true ->
-  eval_expr e m = Some (cond_eval e m).
+(* on well-typed operands the engine's three-valued evaluation IS the algebra's *)
+Theorem expr_agree3 : forall e m, int_row (ord_vars_e e) m -> ord_consts_e e = true -> cond_eval3 e m = eval_expr e m.
 Proof.
-  induction e as [op l r|a IHa b IHb|a IHa b IHb|a IHa]; intros m B T K; cbn [eval_expr cond_eval expr_vars ord_vars_e ord_consts_e] in *.
-  - destruct (lookup m l) as [va|] eqn:El; [|exfalso; apply (B l); [left; auto | auto]].
-    destruct r as [y|c]; cbn [tm_val].
-    + destruct (lookup m y) as [vb|] eqn:Ey; [|exfalso; apply (B y); [right; left; auto | auto]].
-      apply cmp_agree. intro O. rewrite O in T. split; eapply T; eauto; [left | right; left]; auto.
-    + apply cmp_agree. intro O. rewrite O in T, K. split; [eapply T; eauto; left; auto | exact K].
+  induction e as [op l r|a IHa b IHb|a IHa b IHb|a IHa]; intros m T K; cbn [eval_expr cond_eval3 ord_vars_e ord_consts_e] in *.
+  - destruct (lookup m l) as [va|] eqn:El; [|reflexivity].
+    destruct r as [y|d]; cbn [tm_val].
+    + destruct (lookup m y) as [vb|] eqn:Ey; [|reflexivity].
+      symmetry. apply cmp_agree. intro O. rewrite O in T. split; eapply T; eauto; [left | right; left]; auto.
+    + symmetry. apply cmp_agree. intro O. rewrite O in T, K. split; [eapply T; eauto; left; auto | exact K].
   - apply andb_true_iff in K. destruct K as [Ka Kb].
-    rewrite (IHa m), (IHb m); auto.
-    + destruct (cond_eval a m), (cond_eval b m); reflexivity.
-    + intros; apply B; apply in_or_app; auto.
-    + intros x t Hx; apply T; apply in_or_app; auto.
-    + intros; apply B; apply in_or_app; auto.
-    + intros x t Hx; apply T; apply in_or_app; auto.
+    rewrite (IHa m), (IHb m); auto; intros x t Hx; apply T; apply in_or_app; auto.
   - apply andb_true_iff in K. destruct K as [Ka Kb].
-    rewrite (IHa m), (IHb m); auto.
-    + destruct (cond_eval a m), (cond_eval b m); reflexivity.
-    + intros; apply B; apply in_or_app; auto.
-    + intros x t Hx; apply T; apply in_or_app; auto.
-    + intros; apply B; apply in_or_app; auto.
-    + intros x t Hx; apply T; apply in_or_app; auto.
+    rewrite (IHa m), (IHb m); auto; intros x t Hx; apply T; apply in_or_app; auto.
   - rewrite (IHa m); auto.
 Qed.
 
-Theorem expr_agree : forall e c m, (forall x, In x c -> lookup m x <> None) -> nots_ok e c = true ->
-  int_row (ord_vars_e e) m -> ord_consts_e e = true ->
-  cond_eval e m = holds e m.
-Proof.
-  induction e as [op l r|a IHa b IHb|a IHa b IHb|a IHa]; intros c m B N T K; cbn [nots_ok ord_vars_e ord_consts_e] in *.
-  - unfold holds. cbn [eval_expr cond_eval].
-    destruct (lookup m l) as [va|] eqn:El; [|reflexivity].
-    destruct r as [y|d]; cbn [tm_val].
-    + destruct (lookup m y) as [vb|] eqn:Ey; [|reflexivity].
-      rewrite cmp_agree; [destruct (compare_lexical op va vb); reflexivity|].
-      intro O. rewrite O in T. split; eapply T; eauto; [left | right; left]; auto.
-    + rewrite cmp_agree; [destruct (compare_lexical op va d); reflexivity|].
-      intro O. rewrite O in T, K. split; [eapply T; eauto; left; auto | exact K].
-  - apply andb_true_iff in N. destruct N as [Na Nb]. apply andb_true_iff in K. destruct K as [Ka Kb].
-    rewrite holds_and. cbn [cond_eval]. rewrite (IHa c m), (IHb c m); auto; intros x t Hx; apply T; apply in_or_app; auto.
-  - apply andb_true_iff in N. destruct N as [Na Nb]. apply andb_true_iff in K. destruct K as [Ka Kb].
-    rewrite holds_or. cbn [cond_eval]. rewrite (IHa c m), (IHb c m); auto; intros x t Hx; apply T; apply in_or_app; auto.
-  - apply andb_true_iff in N. destruct N as [Ns Na].
-    unfold holds. cbn [eval_expr cond_eval]. rewrite (expr_definite a m); auto.
-    + destruct (cond_eval a m); reflexivity.
-    + intros x Hx. apply B. apply (proj1 (subset_v_in _ _) Ns). exact Hx.
-Qed.
+Theorem expr_agree : forall e m, int_row (ord_vars_e e) m -> ord_consts_e e = true -> cond_eval e m = holds e m.
+Proof. intros e m T K. unfold cond_eval, holds. rewrite (expr_agree3 e m T K). reflexivity. Qed.
 
 (* ---- unfolding ---- *)
 Lemma scert_PGroup : forall es, scert (PGroup es) = scert_go scert es [].
@@ -369,12 +337,12 @@ Qed.
 (* ---- noerr + typed => agree ---- *)
 Fixpoint noerr_loop (es : list pat) (cacc pacc : list var) (fs : list expr) : bool :=
   match es with
-  | [] => forallb (fun f => nots_ok f cacc) fs
+  | [] => true
   | e :: r =>
       match e with
       | PFilter f => noerr_loop r cacc pacc (fs ++ [f])
       | PBind args v =>
-          subset_v (barg_vars args) cacc && negb (mem_var v pacc)
+          negb (mem_var v pacc)
           && noerr_loop r (if subset_v (barg_vars args) cacc then v :: cacc else cacc) (pacc ++ [v]) fs
       | _ => noerr e && noerr_loop r (cacc ++ scert e) (pacc ++ sposs e) fs
       end
@@ -408,9 +376,8 @@ Proof.
   assert (lookup m y <> None) by (apply H; cbn; left; auto). destruct (lookup m y); [reflexivity | congruence].
 Qed.
 
-Lemma extend_is_bind_row : forall args v m, lookup m v = None -> (forall x, In x (barg_vars args) -> lookup m x <> None) ->
-  extend args v m = bind_row args v m.
-Proof. intros args v m Hv Ha. unfold extend, bind_row. rewrite Hv, concat_args_strs by auto. reflexivity. Qed.
+Lemma ebind_extend : forall args v m, lookup m v = None -> ebind args v m = [extend args v m].
+Proof. intros args v m Hv. unfold ebind, extend. rewrite econcat_eq, Hv. destruct (concat_args args m); reflexivity. Qed.
 
 Section Agree.
   Variables (vw : view) (X : list var).
@@ -433,8 +400,8 @@ Section Agree.
     intros gv es HP. induction HP as [|e r He Hr IH]; intros FR IB OC OV active G fs cacc pacc NE HG HF;
       cbn [agree_loop noerr_loop] in *.
     - apply forallb_forall. intros f Hf. unfold filter_agrees. apply forallb_forall. intros m Hm.
-      rewrite forallb_forall in NE. destruct (HG m Hm) as (A & B & C). destruct (HF f Hf) as [K V].
-      rewrite (expr_agree f cacc m); auto; [destruct (holds f m); reflexivity|].
+      destruct (HG m Hm) as (A & B & C). destruct (HF f Hf) as [K V].
+      rewrite (expr_agree f m); auto; [destruct (holds f m); reflexivity|].
       eapply int_row_incl; eauto.
     - cbn [forallb] in IB, OC. assert (Fe : fragB gv e = true) by (apply FR; left; auto).
       assert (FR' : forall e', In e' r -> fragB gv e' = true) by (intros; apply FR; right; auto).
@@ -451,15 +418,14 @@ Section Agree.
       destruct e; try (apply andb_true_iff in NE; destruct NE as [N1 N2]; apply Other; auto; fail).
       + (* FILTER *) eapply IH; eauto. intros f Hf. apply in_app_or in Hf. destruct Hf as [Hf|[Hf|[]]]; [auto|]. subst f.
         cbn [ord_consts ord_vars] in *. split; auto.
-      + (* BIND *) apply andb_true_iff in NE. destruct NE as [NE N3]. apply andb_true_iff in NE. destruct NE as [N1 N2].
-        rewrite N1 in N3. cbn [int_bound] in IBe. apply andb_true_iff. split.
-        * unfold bind_agrees. apply forallb_forall. intros m Hm. apply mu_eqb_eq. destruct (HG m Hm) as (A & B & C).
-          apply extend_is_bind_row.
-          -- destruct (lookup m v) eqn:E; auto. exfalso. apply negb_true_iff in N2.
-             assert (In v pacc) by (eapply A; eauto). apply (proj2 (mem_var_in v pacc)) in H. congruence.
-          -- intros x Hx. apply B. apply (proj1 (subset_v_in _ _) N1). exact Hx.
+      + (* BIND *) apply andb_true_iff in NE. destruct NE as [N2 N3].
+        cbn [int_bound] in IBe. apply andb_true_iff. split.
+        * unfold bind_agrees. apply forallb_forall. intros m Hm. destruct (HG m Hm) as (A & B & C).
+          rewrite ebind_extend; [apply mu_eqb_eq; reflexivity|].
+          destruct (lookup m v) eqn:E; auto. exfalso. apply negb_true_iff in N2.
+          assert (In v pacc) by (eapply A; eauto). apply (proj2 (mem_var_in v pacc)) in H. congruence.
         * eapply IH; eauto. intros m Hm. apply in_map_iff in Hm. destruct Hm as (m0 & E & H0). subst.
-          pose proof (extend_row X pacc cacc args v m0 IBe (HG m0 H0)) as R. rewrite N1 in R. exact R.
+          exact (extend_row X pacc cacc args v m0 IBe (HG m0 H0)).
   Qed.
 
   Theorem agree_syn : forall p, PA p.
@@ -482,10 +448,10 @@ Section Agree.
       + cbn [agree]. destruct (graph_of (v_named vw) c); [|reflexivity]. eapply IHp; eauto. repeat split; auto.
     - cbn [agree noerr ord_consts ord_vars] in *. unfold filter_agrees. cbn [forallb]. rewrite andb_true_r.
       assert (E : cond_eval f [] = holds f []).
-      { apply (expr_agree f [] []); auto. unfold int_row; intros x t _ L; discriminate. }
+      { apply (expr_agree f []); auto. unfold int_row; intros x t _ L; discriminate. }
       rewrite E. destruct (holds f []); reflexivity.
-    - cbn [agree noerr] in *. unfold bind_agrees. cbn [forallb]. rewrite andb_true_r. apply mu_eqb_eq.
-      apply extend_is_bind_row; [reflexivity|]. destruct (barg_vars args); [intros x [] | discriminate].
+    - cbn [agree noerr] in *. unfold bind_agrees. cbn [forallb]. rewrite andb_true_r.
+      rewrite ebind_extend by reflexivity. apply mu_eqb_eq. reflexivity.
     - reflexivity.
     - cbn [agree fragB noerr int_bound ord_consts ord_vars] in *.
       apply andb_true_iff in FR. destruct FR as [_ FRw]. apply andb_true_iff in IB. destruct IB as [_ IB].
